@@ -24,13 +24,13 @@ class C18(Prop):
         return ["Snake"]
 
     def select_configs(self, adapter: Any, tier: str) -> List[Dict[str, Any]]:
-        return [{"id": "ops"}, {"id": "shipped"}]
+        return [{"id": "ops"}, {"id": "shipped"}, {"id": "shipped_rev"}]  # shipped ids in ascending and (own process) descending order
 
     def shards(self, adapter, cfg, tier):
-        return 1 if (tier == "quick" or cfg["id"] == "shipped") else 8
+        return 1 if (tier == "quick" or cfg["id"].startswith("shipped")) else 8
 
     def cost(self, adapter, cfg):
-        return 5.0 if cfg["id"] == "shipped" else 1.0
+        return 5.0 if cfg["id"].startswith("shipped") else 1.0
 
     def run_task(self, task: Dict[str, Any]) -> Dict[str, Any]:
         from jsim import regsim
